@@ -28,14 +28,16 @@ type region struct {
 
 // Arena is a frozen copy of an object graph.
 type Arena struct {
-	mem     []byte
-	regions []region
-	keep    []any // originals
-	Objects int
-	Bytes   int
-	Maps    int
-	Skipped []string // kinds that could not be frozen (funcs, channels, boxed interface values)
-	frozen  bool
+	mem      []byte
+	regions  []region
+	keep     []any // originals
+	Objects  int
+	Bytes    int
+	Maps     int
+	Thawed   int      // pages made writable again
+	Unfrozen []string // types left on the heap because they contain a lock
+	Skipped  []string // kinds that could not be frozen (funcs, channels, boxed interface values)
+	frozen   bool
 }
 
 type visitKey struct {
@@ -76,6 +78,9 @@ func Freeze[T any](root *T) (*T, *Arena, error) {
 	return (*T)(nroot), f.a, nil
 }
 
+// Base returns the address of the first frozen byte.
+func (a *Arena) Base() uintptr { return uintptr(unsafe.Pointer(&a.mem[0])) }
+
 // Contains reports whether addr lies in the arena.
 func (a *Arena) Contains(addr uintptr) bool {
 	if len(a.mem) == 0 {
@@ -83,6 +88,21 @@ func (a *Arena) Contains(addr uintptr) bool {
 	}
 	base := uintptr(unsafe.Pointer(&a.mem[0]))
 	return addr >= base && addr < base+uintptr(len(a.mem))
+}
+
+// Thaw makes the page containing addr writable again (the rest of the arena
+// stays read-only) and returns false if addr is not in the arena.
+func (a *Arena) Thaw(addr uintptr) bool {
+	if !a.Contains(addr) {
+		return false
+	}
+	page := uintptr(syscall.Getpagesize())
+	off := (addr - uintptr(unsafe.Pointer(&a.mem[0]))) &^ (page - 1)
+	if err := syscall.Mprotect(a.mem[off:off+page], syscall.PROT_READ|syscall.PROT_WRITE); err != nil {
+		return false
+	}
+	a.Thawed++
+	return true
 }
 
 // Release unmaps the arena. The frozen copy must not be used afterwards.
@@ -107,6 +127,28 @@ func (f *freezer) add(p unsafe.Pointer, size uintptr) {
 		return
 	}
 	f.raw = append(f.raw, region{start: uintptr(p), end: uintptr(p) + size})
+}
+
+// bearsLock reports whether a value of type t contains, by value, a type of
+// package sync (Mutex, RWMutex, Once, WaitGroup, ...). Such an object is state
+// the program synchronises on: it is left on the Go heap, unfrozen — stores
+// into it under its lock are legitimate, and memory that receives new Go
+// pointers must stay visible to the garbage collector.
+func bearsLock(t reflect.Type) bool {
+	switch t.Kind() {
+	case reflect.Struct:
+		if t.PkgPath() == "sync" || t.PkgPath() == "sync/atomic" {
+			return true
+		}
+		for i := 0; i < t.NumField(); i++ {
+			if bearsLock(t.Field(i).Type) {
+				return true
+			}
+		}
+	case reflect.Array:
+		return t.Len() > 0 && bearsLock(t.Elem())
+	}
+	return false
 }
 
 func hasPointers(t reflect.Type) bool {
@@ -141,8 +183,12 @@ func (f *freezer) collect(v reflect.Value) {
 		}
 		f.seen[k] = true
 		f.a.keep = append(f.a.keep, v.Interface())
-		f.add(p, v.Type().Elem().Size())
-		f.a.Objects++
+		if bearsLock(v.Type().Elem()) {
+			f.a.Unfrozen = append(f.a.Unfrozen, v.Type().Elem().String())
+		} else {
+			f.add(p, v.Type().Elem().Size())
+			f.a.Objects++
+		}
 		f.collect(v.Elem())
 	case reflect.Slice:
 		if v.Cap() == 0 {
@@ -155,8 +201,12 @@ func (f *freezer) collect(v reflect.Value) {
 		}
 		f.seen[k] = true
 		f.a.keep = append(f.a.keep, v.Interface())
-		f.add(p, uintptr(v.Cap())*v.Type().Elem().Size())
-		f.a.Objects++
+		if bearsLock(v.Type().Elem()) {
+			f.a.Unfrozen = append(f.a.Unfrozen, "[]"+v.Type().Elem().String())
+		} else {
+			f.add(p, uintptr(v.Cap())*v.Type().Elem().Size())
+			f.a.Objects++
+		}
 		if hasPointers(v.Type().Elem()) {
 			for i := 0; i < v.Len(); i++ {
 				f.collect(v.Index(i))
